@@ -1,11 +1,14 @@
 import RpmVerif.Driver.Common
 import RpmVerif.Model.Accessors
+import RpmVerif.Model.Utf8
 /-! Driver for C05. Op `acc BYTES` → the same canonical accessor dump as harness/src/c05.rs.
-Errors are collapsed to `err` on both sides (the property only demands "an error"). -/
+Errors are collapsed to `err` on both sides (the property only demands "an error").
+Op `get05 h|s TAGS BYTES` → the nine typed getters of `Header<T>` called directly, per tag.
+Op `lossy05 HEX` → `String::from_utf8_lossy` against `Model/Utf8.lean` (the std assumption every string decode rests on). -/
 namespace RpmVerif.Driver.C05
 open RpmVerif.Hdr RpmVerif.Acc RpmVerif.Gen RpmVerif.Driver
 
-def ops : List String := ["acc"]
+def ops : List String := ["acc", "get05", "lossy05"]
 
 def hx (b : Bytes) : String := hexOrDash b
 def rs (r : Out Bytes) : String := match r with | .ok v => "ok:" ++ hx v | _ => "err"
@@ -89,7 +92,54 @@ def dump (m : Metadata) (tbl : List (Nat × Nat) := fileDigestHexLen) : String :
       | .ok v => "ok:[" ++ sep ";" (v.map fun c => s!"{hx c.name},{c.timestamp},{hx c.description}") ++ "]"
       | _ => "err") ]
 
-def handle (_op : String) (args : List String) (impl : String) : String :=
+def rnums (r : Out (List Nat)) : String :=
+  match r with | .ok v => "ok:[" ++ sep ";" (v.map toString) ++ "]" | _ => "err"
+def rstrs (r : Out (List Bytes)) : String :=
+  match r with | .ok v => "ok:[" ++ sep ";" (v.map hx) ++ "]" | _ => "err"
+
+/-- the nine typed getters of `Header<T>` on one tag, in the order harness/src/c05.rs `getters` prints them -/
+def getters (h : Header) (tag : Nat) : String :=
+  s!"{tag}:present={boolStr (entryIsPresent h tag)} bin={rs (getBinary h tag)} str={rs (getString h tag)} " ++
+  s!"i18n={rs (getI18nString h tag)} u16a={rnums (getU16Array h tag)} u32={rn (getU32 h tag)} u32a={rnums (getU32Array h tag)} " ++
+  s!"u64={rn (getU64 h tag)} u64a={rnums (getU64Array h tag)} stra={rstrs (getStringArray h tag)}"
+
+/-- independent judgement of a `from_utf8_lossy` result (Lean core's UTF-8 validator, not `Model/Utf8`): the output is
+valid UTF-8; valid input comes back unchanged; invalid input comes back changed and contains U+FFFD -/
+def lossySpec (inp out : Bytes) : Bool :=
+  let valid (b : Bytes) := (String.fromUTF8? (ByteArray.mk b.toArray)).isSome
+  let rec hasRepl : Bytes → Bool
+    | 0xEF :: 0xBF :: 0xBD :: _ => true
+    | _ :: r => hasRepl r
+    | [] => false
+  valid out && (if valid inp then out == inp else out != inp && hasRepl out)
+
+def handleGet (which tags hb impl : String) : String :=
+  match bytesOfHex hb with
+  | none => badReq "hex"
+  | some bs =>
+    match parseMetadata bs with
+    | .ok (m, _) =>
+      let h := if which == "s" then m.signature else m.header
+      let ts := (tags.splitOn ",").filterMap String.toNat?
+      let d := sep " ; " (ts.map (getters h))
+      -- the getters are proved to return the projection of the first entry with the tag, whose data is what the store
+      -- holds (Props/C05 getter_value_is_stored / getter_absent / getter_wrong_type): a differing result is a failure
+      let v := if impl == d then "holds" else if impl == "parse-err" then "dontcare" else "fails:getter-differs"
+      let np := (ts.filter (entryIsPresent h)).length
+      answer d v s!"get-{which}-present{min np 3}"
+    | o => answer (if o.isPanic then "panic" else "parse-err") (if impl == "parse-err" then "dontcare" else "fails:accepted-what-model-rejects") "rejected"
+
+def handle (op : String) (args : List String) (impl : String) : String :=
+  match op, args with
+  | "get05", [which, tags, hb] => handleGet which tags hb impl
+  | "lossy05", [hb] =>
+    match bytesOfHex hb, bytesOfHex impl with
+    | some bs, some out =>
+      let m := RpmVerif.Utf8.lossy bs
+      answer (hexOrDash m) (if lossySpec bs out then "holds" else "fails:lossy-decoding")
+        (if m == bs then "lossy-valid" else "lossy-replaced")
+    | _, _ => badReq "hex"
+  | _, _ =>
   match args with
   | [hb] =>
     match bytesOfHex hb with
